@@ -1412,20 +1412,37 @@ def restart_execute(case):
             for b in self.r.core.iterBlocks():
                 b.p.flux = 1000.0 * v
 
+    def label_of(step):
+        return "-probe" if (step[0] + step[1]) % 2 == 0 else "error"
+
+    class Prober(interfaces.Interface):
+        """After the database interface wrote the node: a second, labelled snapshot of the same step with other contents."""
+
+        name = "prober"
+
+        def interactEveryNode(self, cycle, node):
+            v = _run_value(self.run, cycle, node) + 0.5
+            self.r.core.p.keff = v
+            for b in self.r.core.iterBlocks():
+                b.p.flux = 1000.0 * v
+            self.o.getInterface("database").database.writeToDB(self.r, statePointName=label_of((cycle, node)))
+
     class Auditor(interfaces.Interface):
         name = "auditor"
 
-        def _expect(self, step, what):
+        def _expect(self, step, what, labelled=False):
             r = self.o.r
-            want = _run_value(run_of(step), *step)
+            want = _run_value(run_of(step), *step) + (0.5 if labelled else 0.0)
             got = (int(r.p.cycle), int(r.p.timeNode), float(r.core.p.keff), sorted({float(b.p.flux) for b in r.core.iterBlocks()}))
             problems["probes"] += 1
             if got != (step[0], step[1], want, [1000.0 * want]):
                 problems["n"] += 1
                 other = _run_value(3 - run_of(step), *step)
                 sig = "restart/loadState-returns-the-other-run" if got[2] == other else "restart/loadState-state"
+                if labelled:
+                    sig = "restart/loadState-ignores-the-label" if got[2] == want - 0.5 else "restart/loadState-labelled-state"
                 out.fail(sig, "restart from %r, at node %r loadState%r (%s): cycle/node/keff/flux = %r, expected %r"
-                         % (start, self._now, step, what, got, (step[0], step[1], want, [1000.0 * want])))
+                         % (start, self._now, step + ((label_of(step),) if labelled else ()), what, got, (step[0], step[1], want, [1000.0 * want])))
 
         def interactEveryNode(self, cycle, node):
             # the database interface has just written (cycle, node) of this run
@@ -1441,6 +1458,12 @@ def restart_execute(case):
                 self._expect(step, what)
                 if out.violations:
                     break
+            # the labelled snapshots of the same steps hold other contents
+            for step, what in ([probes[1]] if merged else []) + probes[-2:]:
+                if out.violations:
+                    break
+                self.o.loadState(step[0], step[1], label_of(step))
+                self._expect(step, what + ", labelled", labelled=True)
             if (int(self.o.r.p.cycle), int(self.o.r.p.timeNode)) != self._now:
                 self.o.loadState(cycle, node)  # carry on from the current state
 
@@ -1460,6 +1483,9 @@ def restart_execute(case):
         o.addInterface(setter)
         dbi = DatabaseInterface(r, cs)
         o.addInterface(dbi)
+        prober = Prober(r, cs)
+        prober.run = run
+        o.addInterface(prober)
         if run == 2:
             o.addInterface(Auditor(r, cs))
         return cs, bp, o, dbi
@@ -1487,9 +1513,10 @@ def restart_execute(case):
         with h5py.File(files[1], "r") as f2, h5py.File(files[0], "r") as f1:
             out.check(bool(f2.attrs["successfulCompletion"]), "flag/completed-run-not-marked-successful", "the completed restart run is not marked successful")
             got = sorted(k for k in f2.keys() if k.startswith("c") and k[1:3].isdigit())
-            want = sorted([_group_name(c, n, None) for c, n in nodes] + [_group_name(nodes[-1][0], nodes[-1][1], "EOL")])
+            want = sorted([_group_name(c, n, None) for c, n in nodes] + [_group_name(c, n, label_of((c, n))) for c, n in nodes]
+                          + [_group_name(nodes[-1][0], nodes[-1][1], "EOL")])
             missing, extra = sorted(set(want) - set(got)), sorted(set(got) - set(want))
-            mnames = {_group_name(c, n, None) for c, n in merged}
+            mnames = {_group_name(c, n, lab) for c, n in merged for lab in (None, label_of((c, n)))}
             if missing and not extra and set(missing) <= mnames:
                 sig = "restart/merged-step-missing"
             elif missing and not extra:
@@ -1499,8 +1526,7 @@ def restart_execute(case):
             if not out.check(got == want, sig, lambda: "restart from %r: the finished restart database holds %r, expected %r (missing %r, extra %r)"
                              % (start, got, want, missing, extra)):
                 return out
-            for (c, n) in merged:
-                nm = _group_name(c, n, None)
+            for nm in sorted(mnames):
                 d = _tree_diff(_h5_tree(f1[nm]), _h5_tree(f2[nm]))
                 if d is None and _top_attrs(f1[nm]) != _top_attrs(f2[nm]):
                     d = "group attributes differ"
@@ -1525,6 +1551,76 @@ def restart_execute(case):
         _rm(*files)
         if os.path.exists(bpfile):
             os.remove(bpfile)
+    return out
+
+
+# ---------------------------------------------------------------------------------------------------------------------
+# Part E: loads by negative node index ("indexed from EOC backwards like a list")
+
+_NEG_MAX = {"quick": None, "thorough": (3, 3)}
+_NEG_QUICK = [[0], [2], [1, 1], [1, 3], [3, 1, 2]]
+
+
+def negative_enum(tier):
+    if tier == "quick":
+        return [{"burnSteps": b} for b in _NEG_QUICK]
+    import itertools
+
+    maxc, maxb = _NEG_MAX[tier]
+    # a cycle without burn steps only as the single cycle of a run (what armi's cycle arithmetic admits is C15's subject)
+    return [{"burnSteps": list(b)} for c in range(1, maxc + 1) for b in itertools.product(range(maxb + 1), repeat=c)
+            if 0 not in b or len(b) == 1]
+
+
+def negative_execute(case):
+    from armi.bookkeeping.db.database import Database
+
+    out = Out()
+    steps = case["burnSteps"]
+    if len(set(steps)) == 1:
+        settings = {"nCycles": len(steps), "burnSteps": steps[0], "cycleLength": 100.0}
+        out.label("cycles:simple")
+    else:
+        settings = {"nCycles": len(steps), "cycles": [{"cycle length": 100.0, "burn steps": b} for b in steps]}
+        out.label("cycles:detailed")
+    cs, bp, r = rg.build(FAULT_SPEC, settings)
+    r.sort()
+    fn = "c06n_%d.h5" % os.getpid()
+    _rm(fn)
+    db = Database(fn, "w")
+    db.open()
+    n_loads = 0
+    try:
+        for c, b in enumerate(steps):
+            for n in range(b + 1):
+                r.p.cycle, r.p.timeNode = c, n
+                r.core.p.keff = _run_value(1, c, n)
+                db.writeToDB(r)
+        for c, b in enumerate(steps):
+            N = b + 1
+            for n in range(N):
+                try:
+                    r2 = db.load(c, n - N, cs=cs, bp=bp)
+                except ValueError as e:
+                    out.fail("negative-index/existing-node-refused", "cycle %d has %d nodes: load(%d, %d) must be node %d, raised ValueError: %s" % (c, N, c, n - N, n, e))
+                    continue
+                n_loads += 1
+                got = (int(r2.p.cycle), int(r2.p.timeNode), float(r2.core.p.keff))
+                out.check(got == (c, n, _run_value(1, c, n)), "negative-index/wrong-node",
+                          lambda: "cycle %d has %d nodes: load(%d, %d) gave (cycle, node, keff) %r, expected node %d" % (c, N, c, n - N, got, n))
+                if n == 0:
+                    _compare_snapshot(out, "negative-index/state-differs", "load(%d, %d) vs load(%d, 0)" % (c, -N, c), _snapshot(db.load(c, 0, cs=cs, bp=bp)), r2, limit=2)
+            try:
+                db.load(c, -N - 1, cs=cs, bp=bp)
+                out.fail("negative-index/out-of-range-accepted", "cycle %d has %d nodes: load(%d, %d) did not raise" % (c, N, c, -N - 1))
+            except ValueError:
+                pass
+    finally:
+        db.close(True)
+        _rm(fn)
+    out.evals = max(1, n_loads)
+    out.nontrivial = len(steps) > 1 or steps[0] > 0
+    out.nontrivial_count = n_loads
     return out
 
 
@@ -1661,11 +1757,17 @@ PARTS = [
          rule="every layout within the bound x every restart point except (0,0): a complete first run, then a restart run (loadStyle "
               "fromDB, reloadDBName = first file) through MainInterface -> DatabaseInterface.prepRestartRun; a setter before the database "
               "interface gives keff/flux values naming (run, cycle, node); after every node write of the restart run an auditor calls "
-              "Operator.loadState for the first and last merged step, the first step this run wrote and the current one; oracle: "
+              "Operator.loadState for the first and last merged step, the first step this run wrote and the current one, and again with "
+              "the label of the second, labelled snapshot (other contents) that a prober interface writes for every step in both runs; oracle: "
               "loadState returns this run's state for steps this run wrote and the first run's for merged ones; the finished restart "
               "file is marked successful, lists exactly merged steps + own nodes + EOL, merged groups are byte-identical to the first "
               "file, own nodes hold run-2 values; non-trivial = at least one merged step",
          bound=lambda t: "cycles <= %d, burn steps 1..%d, every (startCycle, startNode) != (0, 0)" % _RESTART_BOUNDS[t]),
+    Part("negative_index", _guarded(negative_execute), enumerate=negative_enum, exhaustive=True, procs={"quick": 1, "thorough": 8},
+         rule="cycle layouts given as burn steps per cycle (uniform ones through nCycles/burnSteps, differing ones through the detailed "
+              "`cycles` setting); every node written with its own keff, then every load(c, n - N_c) for n in 0..N_c-1 must be node n "
+              "(the first one compared in full with load(c, 0)) and load(c, -N_c-1) must raise ValueError",
+         bound=lambda t: "burn-step lists %r" % _NEG_QUICK if t == "quick" else "all lists of 1..3 cycles with 1..3 burn steps, and [0]"),
     Part("known_shapes", _guarded(known_execute), enumerate=known_enum, exhaustive=False, procs={"quick": 1, "thorough": 1},
          rule="the three shapes the histories part avoids by construction (history of a never-assigned parameter of a Component subclass; "
               "by-location history of 'location'; history after a renumbering splitDatabase), each on a hex and a Cartesian reactor, so that "
